@@ -644,6 +644,49 @@ def r4(ctx: Ctx) -> None:
                         res[key] = res.get(key, False) or hit
         return res
 
+    # what is encoded is the bound itself: the argument of _encode_bound in the writer is the value iterated out of the bound map,
+    # not a shortened / rounded / sentinel-padded copy of it
+    altered = []
+    n_enc = 0
+    for f_ in [cm] + [h for h in ctx.prog.functions.values() if not isinstance(h.node, ast.Lambda) and h.module is cm.module
+                      and not ctx.prog.is_known(h) and h.cls is cm.cls]:
+        g_ = ctx.cfg(f_)
+        for x in ast.walk(f_.node):
+            if isinstance(x, ast.Call) and (dotted(x.func) or "").split(".")[-1] == "_encode_bound" and x.args:
+                n_enc += 1
+                a0 = x.args[0]
+                if not isinstance(a0, ast.Name):
+                    altered.append(norm_text(a0)[:40])
+                    continue
+                # every binding of that name in the function is an iteration target (comprehension / for), never an expression
+                for y in ast.walk(f_.node):
+                    if isinstance(y, (ast.Assign, ast.AugAssign)) and any(isinstance(t, ast.Name) and t.id == a0.id for t in ast.walk(
+                            y.targets[0] if isinstance(y, ast.Assign) else y.target)):
+                        altered.append(norm_text(y)[:50])
+    # the codec handed on as a function value: `helper(df.lower_bounds, self._encode_bound)` - the helper applies it to the
+    # iterated value
+    for f_ in [cm] + [h for h in ctx.prog.functions.values() if not isinstance(h.node, ast.Lambda) and h.module is cm.module
+                      and not ctx.prog.is_known(h) and h.cls is cm.cls]:
+        for x in ast.walk(f_.node):
+            if isinstance(x, ast.Call) and any((dotted(a) or "").split(".")[-1] == "_encode_bound" for a in list(x.args) + [k.value for k in x.keywords]):
+                tgt = [t for t in ctx.prog.functions.values() if not isinstance(t.node, ast.Lambda) and t.module is cm.module
+                       and t.name == (dotted(x.func) or "").split(".")[-1]]
+                for t in tgt:
+                    pos = [i for i, a in enumerate(x.args) if (dotted(a) or "").split(".")[-1] == "_encode_bound"]
+                    params = [p.name for p in t.params if p.name not in ("self", "cls")]
+                    pnames = {params[i] for i in pos if i < len(params)} | {k.arg for k in x.keywords if (dotted(k.value) or "").split(".")[-1] == "_encode_bound"}
+                    for y in ast.walk(t.node):
+                        if isinstance(y, ast.Call) and isinstance(y.func, ast.Name) and y.func.id in pnames and y.args:
+                            n_enc += 1
+                            a0 = y.args[0]
+                            if not isinstance(a0, ast.Name) or any(
+                                    isinstance(z, (ast.Assign, ast.AugAssign)) and any(isinstance(tt, ast.Name) and tt.id == a0.id for tt in ast.walk(
+                                        z.targets[0] if isinstance(z, ast.Assign) else z.target)) for z in ast.walk(t.node)):
+                                altered.append(norm_text(y)[:50])
+    ctx.ob("C13.R4", cm, "the writer encodes the bound values unaltered", None, n_enc > 0 and not altered,
+           "every _encode_bound(v) in the manifest writer is applied to the value iterated out of lower_bounds / upper_bounds"
+           if not altered else f"the encoded value is a transformed copy: {altered[:3]} - a truncated / padded upper bound is not an upper bound",
+           text="unaltered")
     es, ds = _codec_sites(cm, "_encode_bound"), _codec_sites(rm, "_decode_bound")
     ctx.ob("C13.R4", cm, "both bound maps are encoded / decoded", None,
            es.get("lower_bounds", False) and es.get("upper_bounds", False) and ds.get("lower_bounds", False) and ds.get("upper_bounds", False),
@@ -759,6 +802,23 @@ def bounds_producers(ctx: Ctx, rid: str = "C13.R9") -> None:
                 srcs = [x for x, _a in resolve_value(ctx, f, k.value, n.id)]
                 computed = any(isinstance(c, ast.Call) and (dotted(c.func) or "").split(".")[-1] in ("_compute_column_bounds", "_decode_bound")
                                for c in org["calls"]) or any(nm.split(".")[-1] == "_decode_bound" for nm in org["names"])
+                if computed and isinstance(k.value, ast.Name):
+                    # EVERY definition reaching the keyword must be sanctioned: an alternative assignment (footer statistics,
+                    # a truncated copy) on some path is a second source
+                    for d in ctx.rd(f).reaching(n.id, k.value.id):
+                        dn = g.nodes[d]
+                        if d == g.entry or not isinstance(dn.ast, ast.Assign):
+                            continue
+                        v_ = dn.ast.value
+                        if isinstance(v_, ast.Constant) and v_.value is None:
+                            continue
+                        o2 = ctx.slicer(f).origins(v_, d)
+                        tuple_of_call = isinstance(dn.ast.targets[0], (ast.Tuple, ast.List)) and isinstance(v_, ast.Call)
+                        fine = tuple_of_call or any(isinstance(c, ast.Call) and (dotted(c.func) or "").split(".")[-1] in ("_compute_column_bounds", "_decode_bound")
+                                                    for c in o2["calls"] | ({v_} if isinstance(v_, ast.Call) else set())) \
+                            or any(nm.split(".")[-1] == "_decode_bound" for nm in o2["names"])
+                        if not fine:
+                            computed = False
                 copied = any(nm.endswith("." + k.arg) for nm in org["names"])
                 deser = any(isinstance(c, ast.Call) and isinstance(c.func, ast.Attribute) and c.func.attr == "get" and c.args
                             and isinstance(c.args[0], ast.Constant) and c.args[0].value == k.arg for c in org["calls"])
@@ -768,6 +828,23 @@ def bounds_producers(ctx: Ctx, rid: str = "C13.R9") -> None:
                        ("computed by _compute_column_bounds" if computed else "copied / deserialised / absent") if ok else
                        f"`{norm_text(k.value)[:60]}` is neither _compute_column_bounds' result, a decoded manifest value nor a copy: "
                        "an unverified statistics source decides which files a filtered scan skips", text=k.arg)
+    # bounds attached to an existing DataFile afterwards (`df.lower_bounds = ...`) are production sites as well
+    for f in sorted(ctx.prog.functions.values(), key=lambda x: x.qname):
+        if isinstance(f.node, ast.Lambda) or judged_in_callers(ctx, f):
+            continue
+        g = ctx.cfg(f)
+        for n in g.nodes:
+            if n.kind != "stmt" or not isinstance(n.ast, ast.Assign) or n.id not in g.reachable():
+                continue
+            for t in n.ast.targets:
+                if isinstance(t, ast.Attribute) and t.attr in ("lower_bounds", "upper_bounds") and not (isinstance(t.value, ast.Name) and t.value.id == "self"):
+                    org = ctx.slicer(f).origins(n.ast.value, n.id)
+                    ok = any(isinstance(c, ast.Call) and (dotted(c.func) or "").split(".")[-1] in ("_compute_column_bounds", "_decode_bound")
+                             for c in org["calls"]) or any(nm.endswith("." + t.attr) for nm in org["names"]) \
+                        or (isinstance(n.ast.value, ast.Constant) and n.ast.value.value is None)
+                    ctx.ob(rid, f, f"{t.attr} stored on a DataFile has a sanctioned source", n, ok,
+                           "computed / copied" if ok else f"`{n.text[:60]}`: bounds from an unverified statistics source are attached to a file",
+                           text=t.attr)
     if n_sites < 6:
         raise AnalysisError(f"only {n_sites} DataFile bound sites found")
 
